@@ -39,7 +39,17 @@ def edge_rule_bindings(model: Model, edge: Edge, rules: List[Rule]):
     """Yield (rule or None, description, bound call) for each rule an edge site may use."""
     byname = rules_by_name(rules)
     out = []
+    vals = []
     for fi, e, call in resolve_values(model, edge.fi, edge.rule_expr, edge.call, depth=1):
+        # a conditional expression names one rule per arm
+        todo = [e]
+        while todo:
+            x = todo.pop(0)
+            if isinstance(x, ast.IfExp):
+                todo[:0] = [x.body, x.orelse]
+            else:
+                vals.append((fi, x, call))
+    for fi, e, call in vals:
         if isinstance(e, ast.Constant) and isinstance(e.value, str):
             rs = byname.get(e.value)
             out.append((rs[-1] if rs else None, e.value, call))
